@@ -176,6 +176,32 @@ template <class T> static void buffer_cmp_forms(Groups &g, const char *tn, const
     }
 }
 
+// comparison of wide buffers on units that are not bytes (C06): unit order, not byte order
+template <class T> static void op_cmpw(int bits, const std::vector<long long> &a, const std::vector<long long> &b) {
+    if (!SH.take()) return;
+    auto jl = [](const std::vector<long long> &v) { std::string r = "["; for (size_t i = 0; i < v.size(); ++i) { if (i) r += ','; r += std::to_string(v[i]); } return r + "]"; };
+    Out h; begin(h, "cmpw"); h.c(',').k("w").i(bits).c(',').k("a").s(jl(a)).c(',').k("b").s(jl(b));
+    set_cur(SH.idx - 1, h.b + "}");
+    std::basic_string<T> wa, wb; for (long long x : a) wa += (T)x; for (long long x : b) wb += (T)x;
+    Exact<T> ea(wa.data(), wa.size()), eb(wb.data(), wb.size());
+    ST::buffer<T> ba(ea.p, ea.n), bb(eb.p, eb.n);
+    Groups g;
+    g.run("sign", "compare(buf)", [&] { return jsign(ba.compare(bb)); });
+    g.run("sign", "compare(p,n,p,n)", [&] { return jsign(ST::buffer<T>::compare(ea.p, ea.n, eb.p, eb.n)); });
+    g.run("eq", "==", [&] { return jint(ba == bb); });
+    g.run("ne", "!=", [&] { return jint(ba != bb); });
+    g.run("lt", "<", [&] { return jint(ba < bb); });
+    if (wb.find((T)0) == std::basic_string<T>::npos) { Exact<T> ez(wb.c_str(), wb.size() + 1); g.run("sign", "compare(z)", [&] { return jsign(ba.compare(ez.p)); }); }
+    finish(h, g);
+}
+static void gen_cmpw() {
+    auto seqs = [](const std::vector<long long> &al) { std::vector<std::vector<long long>> r = {{}}; for (long long x : al) r.push_back({x}); for (long long x : al) for (long long y : al) r.push_back({x, y}); return r; };
+    auto s16 = seqs({0, 0x41, 0xFF, 0x100, 0x7FFF, 0x8000, 0xFFFF});
+    for (auto &a : s16) for (auto &b : s16) op_cmpw<char16_t>(16, a, b);
+    auto s32 = seqs({0, 0x41, 0xFF, 0x100, 0xFFFF, 0x10000, 0x10FFFF, 0x7FFFFFFF});
+    for (auto &a : s32) for (auto &b : s32) { op_cmpw<char32_t>(32, a, b); op_cmpw<wchar_t>(sizeof(wchar_t) * 8, a, b); }
+}
+
 static void op_cmp(const Bytes &a, const Bytes &b) {
     if (!SH.take()) return;
     Out h; begin(h, "cmp"); h.c(',').k("a").s(jbytes(a)).c(',').k("b").s(jbytes(b));
@@ -580,6 +606,8 @@ int main(int argc, char **argv) {
             if (rng.below(4) == 0) b = a.substr(0, rng.below(a.size() + 1));
             op_cmp(a, b); op_cmpn(a, b, rng.below(26)); op_case(a);
         }
+    } else if (gen == "cmpw") {
+        gen_cmpw();
     } else if (gen == "x01") {
         size_t L = ST_MAX_SSO_LENGTH;
         std::vector<Bytes> subj = strs;
